@@ -387,7 +387,7 @@ example : msCurrMax 2 48000 960 255 0 0 = 252 ∧ msCurrMax 2 48000 960 255 254 
 def exEnc : Nat → Int → Res Bytes := fun _ cm =>
   if 3 ≤ cm then .ok (serialize false ⟨0xF8, [[7, 7]], false, none⟩)
   else if 1 ≤ cm then .ok (serialize false ⟨0xF8, [[]], false, none⟩) else .err .badArg
-example : MsEncode.EncContract 48000 960 exEnc ∧ MsEncode.EncTotal exEnc ∧ EncLive (decide (48000 / 960 = 10)) exEnc := by
+theorem exEnc_contracts : MsEncode.EncContract 48000 960 exEnc ∧ MsEncode.EncTotal exEnc ∧ EncLive (decide (48000 / 960 = 10)) exEnc := by
   have hv : ∀ f : Bytes, f.length ≤ 1275 → Valid ⟨0xF8, [f], false, none⟩ := fun f hf =>
     { toc_byte := by show (0xF8 : Nat) < 256; decide
       frame_max := by intro g hg; simp only [List.mem_singleton] at hg; subst hg; exact hf
@@ -414,12 +414,21 @@ example : MsEncode.EncContract 48000 960 exEnc ∧ MsEncode.EncTotal exEnc ∧ E
     unfold exEnc
     split
     · exact ⟨_, rfl⟩
-    · rw [if_pos h1]; exact ⟨_, rfl⟩
-example : MsEncode.encodeNative 2 48000 960 true none 255 exEnc = .ok [0xF8, 2, 7, 7, 0xF8, 7, 7] ∧
-    (match MsEncode.encodeNative 2 48000 960 false none 255 exEnc with | .ok out => decide (out.length = 255) | _ => false) = true ∧
-    MsEncode.encodeNative 2 48000 960 true none 2 exEnc = .err .bufferTooSmall ∧
-    MsEncode.encodeNative 2 48000 960 true none 3 exEnc = .ok [0xF8, 0, 0xF8] := by
-  decide +kernel
+    · exact ⟨_, rfl⟩
+/-- … so the theorem applies: two streams, 255 bytes: VBR returns a packet of 1..255 bytes, CBR (OPUS_BITRATE_MAX) one of
+    exactly 255 bytes, and 2 bytes are refused (`smallest_packet` = 3). -/
+example : (∃ out, MsEncode.encodeNative 2 48000 960 true none 255 exEnc = .ok out ∧ 1 ≤ out.length ∧ (out.length : Int) ≤ 255) ∧
+    (∃ out, MsEncode.encodeNative 2 48000 960 false none 255 exEnc = .ok out ∧ (out.length : Int) = 255) ∧
+    MsEncode.encodeNative 2 48000 960 true none 2 exEnc = .err .bufferTooSmall := by
+  obtain ⟨hc, ht, hl⟩ := exEnc_contracts
+  obtain ⟨a1, a2⟩ := ms_encode_ret_le_out 2 (by decide) 48000 960 true none 255 exEnc hc ht hl
+  obtain ⟨b1, b2⟩ := ms_encode_ret_le_out 2 (by decide) 48000 960 false none 255 exEnc hc ht hl
+  obtain ⟨c1, -⟩ := ms_encode_ret_le_out 2 (by decide) 48000 960 true none 2 exEnc hc ht hl
+  refine ⟨?_, ?_, c1 (by decide)⟩
+  · obtain ⟨out, h1, h2, h3, -⟩ := a2 (by decide)
+    exact ⟨out, h1, h2, h3⟩
+  · obtain ⟨out, h1, -, -, h4, -⟩ := b2 (by decide)
+    exact ⟨out, h1, by rw [h4 rfl]; decide⟩
 
 /-! non-vacuity of `stOk_along_histories`: a `Reach` instance — create (48 kHz stereo AUDIO), OPUS_SET_BITRATE(64000),
     OPUS_SET_VBR(0), then one 20 ms encode call (any oracle values; here the CELT frame of `exOr 159`) -/
